@@ -877,8 +877,11 @@ func (e *nenum) newFrame(fd *ast.FuncDecl, parent *nframe, subst map[string]stri
 	})
 	for _, name := range order {
 		if count[name] == 1 {
-			if d, ok := fr.defs[name]; ok && !mutated[name] && !isAlloc(d) && condUses[name] < 2 {
-				continue
+			if d, ok := fr.defs[name]; ok && !mutated[name] && !isAlloc(d) {
+				_, isLit := stripParens(d).(*ast.BasicLit)
+				if condUses[name] < 2 || isLit {
+					continue // (a literal given a name has no identity to keep)
+				}
 			}
 		}
 		delete(fr.defs, name)
